@@ -52,7 +52,9 @@ func (oneMXResolver) LookupIPAddr(ctx context.Context, host string) ([]net.IPAdd
 
 // srvAct is the scripted behaviour at one server stage.
 type srvAct struct {
-	What string // ok temp perm drop rst garbage ok-then-close
+	What string // ok temp perm drop rst garbage ok-then-close abort-mid-data
+	N    int    // abort-mid-data: payload bytes read before the connection is aborted (0: right after the 354)
+	RST  bool
 	Code int
 }
 
@@ -94,6 +96,10 @@ func (s *srvScript) decide(ev smtpd.Event) srvAct {
 	case 4:
 		return srvAct{What: "garbage"}
 	case 5:
+		if ev.Stage == smtpd.StageData {
+			// 354, then the connection dies while the client streams the message.
+			return srvAct{What: "abort-mid-data", N: prng.Pick(g, []int{0, 0, 1, 700, 5000, 70000, 300000}), RST: g.Bool()}
+		}
 		return srvAct{What: "ok-then-close"}
 	}
 	return srvAct{What: "ok"}
@@ -138,6 +144,11 @@ func (s *srvScript) script(ev smtpd.Event) *smtpd.Action {
 		return nil // success replies are always the plain, well-formed default reply
 	case "ok-then-close":
 		return &smtpd.Action{DropAfter: true}
+	case "abort-mid-data":
+		if a.N == 0 {
+			return &smtpd.Action{DropAfter: true, RST: a.RST}
+		}
+		return &smtpd.Action{AbortPayloadAfter: a.N, RST: a.RST}
 	case "temp", "perm":
 		act = &smtpd.Action{Code: a.Code}
 		switch g.Intn(5) {
@@ -338,7 +349,7 @@ func realWeights(p *prng.R, lmtp bool) (map[smtpd.Stage][]int, string) {
 		smtpd.StageEHLO:    mk(1, 3, 1, 2, 0, 0),
 		smtpd.StageMail:    mk(2, 3, 3, 2, 1, 0),
 		smtpd.StageRcpt:    mk(4, 3, 3, 1, 1, 0),
-		smtpd.StageData:    mk(3, 3, 3, 2, 1, 0),
+		smtpd.StageData:    mk(3, 3, 3, 2, 1, 3),
 		smtpd.StageDot:     mk(4, 3, 3, 3, 1, 2),
 		smtpd.StageRset:    mk(2, 2, 2, 2, 0, 0),
 		smtpd.StageQuit:    mk(2, 2, 1, 3, 0, 0),
@@ -358,6 +369,12 @@ func runRealCase(t *testing.T, r *rep.Reporter, c *rep.Case, k int) {
 	sc.Bounce = !p.Chance(1, 8)
 	sc.Parallelism = 1
 	m := genMsg(p, fmt.Sprintf("r%d", k), 1+p.Weighted([]int{2, 4, 3, 2}), true)
+	if pb := prng.New(r.Seed(), uint64(k), "c01-real-body"); pb.Chance(2, 5) {
+		// Large enough that the writes of the client fail while it is still
+		// streaming after a mid-DATA abort (small bodies vanish into socket buffers).
+		m.BodySize = prng.Pick(pb, []int{40 << 10, 300 << 10, 1200 << 10, 3 << 20})
+		r.Count("real_messages_with_large_body", 1)
+	}
 	sc.Msgs = []*msgSpec{m}
 	lmtp := sc.Kind == "lmtp"
 	srvUTF8 := p.Chance(2, 5)
